@@ -241,9 +241,26 @@ def upgrade_table(run, f):
     mi.STD_VARIANTS[CF] = ["Continue", "Break"]
 
     def bi_upgrade(it, fn, args, path, body_, blk, depth):
+        # eager fork: one outcome per result of WeakSender::upgrade (a repeated upgrade of the same
+        # weak sender on one path is consistent with the first)
         a = mi._peel(args[0])
         nm = mi.show(a)
-        return [(path, choice("upgrade(%s)" % nm, [NONE, some(sym("strong(%s)" % nm))]))]
+        key = "upgrade(%s)" % nm
+        alts = [NONE, some(sym("strong(%s)" % nm))]
+        if key in path.assume:
+            return [(path, [x for x in alts if mi.show(x) == path.assume[key]][0])]
+        out = []
+        for alt in alts:
+            p2 = path.fork()
+            p2.assume[key] = mi.show(alt)
+            out.append((p2, alt))
+        return out
+
+    def bi_closed(it, fn, args, path, body_, blk, depth):
+        return [(path, mi.free("closed(%s)" % mi.show(mi._peel(args[0]))))]
+
+    def bi_count(it, fn, args, path, body_, blk, depth):
+        return [(path, ("symint", "count(%s)" % mi.show(mi._peel(args[0]))))]
 
     def bi_branch(it, fn, args, path, body_, blk, depth):
         v = args[0]
@@ -264,6 +281,7 @@ def upgrade_table(run, f):
         return [(path, NONE)]
 
     it = Interp(f, builtins={"tokio::sync::mpsc::WeakSender::<T>::upgrade": bi_upgrade, "core::ops::try_trait::Try::branch": bi_branch,
+                             "tokio::sync::mpsc::Sender::<T>::is_closed": bi_closed, "tokio::sync::mpsc::WeakSender::<T>::strong_count": bi_count,
                              "core::ops::try_trait::FromResidual::from_residual": bi_from_residual,
                              "core::clone::Clone::clone": mi.bi_clone})
     try:
@@ -296,5 +314,13 @@ def upgrade_table(run, f):
         else:
             if v != NONE:
                 bad.append("an upgrade fails (%s) but the result is %s" % (ups, mi.show(v)))
-    run.require(not bad and n_some == 1 and len(res) >= 3, "O7.5", "upgrade-table", "; ".join(bad[:3]) or "unexpected table size %d" % len(res),
+        if all_some and v == NONE:
+            pass
+    # "exactly while some strong reference exists": whenever both weak senders upgrade, the result must be Some
+    for p, v in res:
+        ups = {k: val for k, val in p.assume.items() if k.startswith("upgrade(")}
+        if len(ups) == 2 and all(val.startswith("Option::Some") for val in ups.values()) and v == NONE:
+            other = {k: val for k, val in p.assume.items() if not k.startswith("upgrade(")}
+            bad.append("both weak senders upgrade (strong references exist) but upgrade() returns None under %s" % other)
+    run.require(not bad and n_some >= 1 and len(res) >= 3, "O7.5", "upgrade-table", "; ".join(bad[:3]) or "unexpected table size %d" % len(res),
                 "%d paths: Some(ActorRef{id, both upgraded senders}) iff both weak senders upgrade, else None" % len(res), loc=f.span(f.fns[d]["span"]).loc)
